@@ -281,8 +281,6 @@ Definition deviation_witnesses : list (string * list value) := [
   ("abc~{~5T~A~}", [ints [1]]);                                       (* column inside a block *)
   ("abc~2,4T|", []);                                                  (* ~colnum,colincT *)
   ("~T|", []);
-  ("~{~2{~A~}|~}", [VList [ints [1; 2; 3]; ints [4; 5; 6]]]);         (* nested block with a parameter *)
-  ("~{~{~A~:}|~}", [VList [ints [1]; ints [2]]]);                     (* nested ~:} *)
   ("~:(~A~)", [VStr (tx "2nd")]);                                     (* words that start with a digit *)
   ("~@(~A~)", [VStr (tx " hello world")])
 ]%Z.
@@ -318,7 +316,12 @@ Definition guard_examples : list (string * list value) := [
   ("~2{~A~}~{~A~:}|~{x~:}", [ints [1; 2; 3]; ints [4]; VNil]);
   ("~{~[a~;b~]~(~A~)~}", [VList [VInt 0; VStr (tx "XY"); VInt 1; VStr (tx "Zw")]]);
   ("~?~A ~@?~A", [VStr (tx "<~A~A>"); ints [1; 2]; VInt 3; VStr (tx "[~A]"); VInt 4; VInt 5]);
-  ("~(ABC dEF~) ~:(abc dEF~) ~@(abc dEF~) ~:@(abc def~)", [])
+  ("~(ABC dEF~) ~:(abc dEF~) ~@(abc dEF~) ~:@(abc def~)", []);
+  (* formerly outside the guard (repaired findings) *)
+  ("~R ~:R ~:R ~:R ~2R ~16,4,'0R ~3,,,'.,2:@R", [VInt 20001; VInt 20; VInt 100; VInt 2000000; VInt 5; VInt 255; VInt 100]);
+  ("~R|~VD|~10,'*D|~,,',:D|~D", [VInt 1000000000000000001; VInt 3; VInt 1; VInt 42; VInt 1234567; VStr (tx "abc")]);
+  ("~[a~;b~:;c~] ~:[f~;t~] ~:A ~@[x~A~]y ~?|", [VInt 100000000000000000000; VList []; VList []; VList []; VStr (tx "x"); VNil]);
+  ("~{~A~}} ~{~2{~A~}|~} ~{~{~A~:}|~}", [ints [1]; VList [ints [1; 2; 3]; ints [4; 5; 6]]; VList [ints [1]; ints [2]]])
 ]%Z.
 Lemma guard_examples_hold : forallb in_guard_same guard_examples = true.
 Proof. vm_compute. reflexivity. Qed.
